@@ -1,6 +1,7 @@
 #!/bin/bash
 # runs every claimed check once (tier $1, default quick) on the current /repo tree and prints one line per property
 TIER="${1:-quick}"; cd "$(dirname "$0")/.."
-for p in $(python3 -c "import json;print(' '.join(c['property_id'] for c in json.load(open('MANIFEST.json'))['checks']))"); do
+IDS="${@:2}"; [ -z "$IDS" ] && IDS=$(python3 -c "import json;print(' '.join(c['property_id'] for c in json.load(open('MANIFEST.json'))['checks']))")
+for p in $IDS; do
   s=$(date +%s); bin/check $p --tier $TIER > /tmp/run_all_$p.log 2>&1; rc=$?; echo "$p rc=$rc $(( $(date +%s) - s ))s $(tail -1 /tmp/run_all_$p.log | cut -c1-200)"
 done
